@@ -137,34 +137,52 @@ SPEC = {
     "shrink": shrink,
     "search": search,
     "custom": custom,
-    "level_text": "Proof, partial. Kernel-checked for every macro list, token list, API define list and include graph: the "
-                  "model's expansion function (loop + recursive expansion of arguments and bodies of preprocess.rs, after the d00f5aa "
-                  "fix) is total by the lexicographic measure (enabled macros, tokens right of next_pos), its measure guards never "
-                  "fire (expand_terminates) and the non-advancing `continue` of find_single_macro is unreachable "
-                  "(expand_never_hangs); invoking an object-like / function-like macro (n >= 1 parameters, arguments with nested "
-                  "parentheses and commas) on inert text yields the body with the arguments substituted; the macro list never holds "
-                  "two entries of a name through a whole run and lookup = latest #define not followed by #undef; API defines = "
-                  "#define lines placed before the first line (full, after the 9f7cdb8 fix); #include = the file's lines between two "
-                  "block boundaries; a #pragma once file contributes once. Partial: equivalence with the reference C algorithm "
-                  "(Spec.CPreMacro.expand, Prosser) is proved for the classes named in expand_refines_spec_partial; the rest of the "
-                  "rescanning equivalence is covered by the correspondence run against an independent reference preprocessor in "
-                  "the harness, which exhibits six reproducible deviations from C (listed as known findings).",
+    "level_text": "Proof; partial only at the places named below. Kernel-checked for every macro list, token list, API define "
+                  "list and include graph: the model's expansion function (loop + recursive expansion of arguments and bodies of "
+                  "preprocess.rs) is total, its measure guards never fire and the non-advancing `continue` of find_single_macro is "
+                  "unreachable; REFINEMENT: whenever a token list has a tame expansion (Lemmas.MacroTame.Tame; decided by the "
+                  "executable tameRun) the model's result and the reference C algorithm (Spec.CPreMacro.expand, Prosser's hide-set "
+                  "algorithm, for some fuel) yield the same tokens (expand_refines_spec[_decided]): object- and function-like "
+                  "macros, any number of parameters, nested invocations in arguments and replacement lists, parenthesised commas, "
+                  "self- and mutually referential macros; for tables of object-like macros every token list is tame "
+                  "(object_like_refines_spec: object-like macros in full). The side conditions of the class are each shown "
+                  "necessary by a witness evaluated in Lean on model and reference (differs_*: line end before '(', unused "
+                  "argument, argument repainted, painted name re-invoked, name before a vanished macro, empty argument next to "
+                  "##) and replayed on the real code. ## : one paste step replaces l ws* ## ws* r by one token spelled l+r "
+                  "(paste_is_single_token); which joined spellings are one token agrees with the lexer model of C10 "
+                  "(identifiers universally, the 49 operator pairs exhaustively, keyword tables). Scope of definitions: the list "
+                  "never holds two entries of a name, lookup = latest #define not followed by #undef, a directive takes effect "
+                  "from its line; API defines = #define lines before the first line (every entry file); #include = the file's "
+                  "lines between two block boundaries (empty file: one line end); a #pragma once file contributes once. PARTIAL: "
+                  "(a) ## is not inside the refinement class; (b) invocations completed by the text after the end of an "
+                  "expansion are excluded from the class (universal statement for the model: trailing_function_name_is_invoked; "
+                  "agreement with C on witnesses only); (c) numbers pasted with numbers vs the lexer: correspondence only. The "
+                  "correspondence run checks on every generated program that lies in the class (driver op C12.tame) that the real "
+                  "preprocessor equals the harness's independent reference preprocessor.",
     "rule": "requests = (API define list, include graph of files given line by line as token lists); the harness renders the "
             "files, checks with the real lexer that every line lexes to exactly the request's tokens, runs the real "
             "rssl_preprocess::preprocess + prepare_tokens and compares kinds/values of the result with the model and with an "
             "independent reference C preprocessor (Prosser's hide-set algorithm) written in the harness; generated programs: "
             "1-6 macros with 0-3 parameters, bodies of up to 8 elements referring to parameters, other macros, themselves, with "
             "## pastes; 1-10 invocation sites with nested invocations, parenthesised commas, empty arguments, wrong arities, "
-            "argument lists spanning lines; redefinitions and #undef between the sites; 1-5 files with and without #pragma once, "
+            "argument lists spanning lines, bodies ending in a function-like name (followed by nothing, a parameter or an "
+            "object-like macro that may expand to nothing), sites continued by parenthesised groups (M()(2)(1)), comments and "
+            "blanks at token boundaries; redefinitions and #undef between the sites; 1-5 files with and without #pragma once, "
             "repeated and back-edge includes; every leading object-like definition placed in the file, in the API list, and split; "
-            "non-trivial = a macro is defined and at least three tokens come out",
+            "generated programs run in a worker process under a time/memory limit (expansion blow-up = known finding); "
+            "every program is also classified by the model (C12.tame): inside the class of expand_refines_spec_decided the "
+            "real output must equal the reference; non-trivial = a macro is defined and at least three tokens come out",
     "trusted_base": [
         "Lean 4.33 kernel; axioms propext / Classical.choice / Quot.sound only (audited by #print axioms)",
         "tools/gens/c12.py (MacroTables: any_word keyword arms, preprocess_command directive arms and the retain/push shape of "
-        "define/undef, the pragma names, Token::is_whitespace, the apply_macros_internal call that expands arguments, the "
-        "Macro::parse + retain + push path of initial defines, compile()'s built-in defines) — re-run on /repo's working tree every time",
+        "define/undef, the pragma names, Token::is_whitespace, the apply_macros_internal call that expands arguments, every "
+        "MacroSearchPosition literal and the conditions of find_single_macro that consult it, the Macro::parse + retain + push "
+        "path of initial defines, compile()'s built-in defines) and tools/gens/c10.py (LexTables, for paste_matches_lexer) — "
+        "re-run on /repo's working tree every time",
         "hand-written Model/Macro.lean and Model/Include.lean mirror preprocess.rs; tied to the code by the correspondence run only",
-        "Spec/CPre.lean: our reading of C11 6.10.3 (Prosser's algorithm) and 6.10.3.5 (scope of definitions)",
+        "Spec/CPreMacro.lean: our reading of C11 6.10.3 (Prosser's algorithm) and 6.10.3.5 (scope of definitions); "
+        "Lemmas.MacroTame.Tame / Model.MacroTame.tameRun: the definition of the class of the refinement theorem",
+        "Model/Lexer.lean (C10's lexer model) for paste_matches_lexer",
         "harness reference preprocessor (Rust) = the oracle of the correspondence run; the lexer is used as given (C10)",
     ],
     "assumptions": [
